@@ -164,11 +164,11 @@ def httpLine (st : HttpRun) (lineNo : Nat) (line : String) : Except String (Http
     -- conditional get admits it (every request ends in one of the specified answers)
     let fs := fields rest
     let get := fun k => (lookup fs k).getD ""
-    let what := s!"hist={st.hist} line={lineNo} ep={get "ep"} kind={get "kind"} n={(get "n").take 80} v={get "v"} via={get "via"}: the handler did not return within 20 s"
+    let what := s!"hist={st.hist} line={lineNo} ep={get "ep"} kind={get "kind"} n={(get "n").take 80} v={get "v"} via={get "via"}: the handler did not return within 60 s"
     .ok ({ st with steps := st.steps + 1, fails := st.fails + 3 },
          [s!"PROPFAIL C08 every_request_answered {what}", s!"PROPFAIL C09 four_outcomes {what}", s!"PROPFAIL C01 result_is_specified {what}"])
   | "stuck" :: rest =>
-    -- the harness made no progress for a minute and a half: a call into the code under test has
+    -- the harness made no progress for three minutes: a call into the code under test has
     -- not returned and never will.  No statement admits a call that is never answered.
     let fs := fields rest
     let note := ((lookup fs "note").bind unhexStr).getD ""
